@@ -178,6 +178,7 @@ class Rig:
         self.nr = 0 if self.resp is None else 1
         self.chunk = {"CR": None, "CA": None}      # octets per non-final segment, as observed on the wire
         self.net = []          # [octets, at, dir, hdr]
+        self.late = {}         # id -> frame: frames the medium held back (kept referenced so that ids stay unique)
         self.tx = []
         self.wire = []
         self.cout = []         # outcomes: dict(k, rx, at, payload_ok)
@@ -368,7 +369,7 @@ class Rig:
     def frame_rec(self, fr):
         h = fr[3]
         return dict(k=h["k"], dir=h["dir"], srv=h["srv"], seg=h["seg"], mor=h["mor"], seq=h["seq"], win=h["win"],
-                    nak=h["nak"], tok=h["tok"], at=MS(fr[1]), len=h["len"])
+                    nak=h["nak"], tok=h["tok"], at=MS(fr[1]), len=h["len"], late=id(fr) in self.late)
 
     def snapshot(self):
         ct, st = self.c.smap.clientTransactions, self.s.smap.serverTransactions
@@ -393,7 +394,8 @@ class Rig:
         """indexes (0-based) of frames that may be delivered now: due, and first due frame of their direction"""
         out = []
         for i, fr in enumerate(self.net):
-            if fr[1] <= vt.now and not any(g[2] == fr[2] and g[1] <= vt.now for g in self.net[:i]):
+            if fr[1] <= vt.now and (id(fr) in self.late or not any(
+                    g[2] == fr[2] and g[1] <= vt.now and id(g) not in self.late for g in self.net[:i])):
                 out.append(i)
         return out
 
@@ -455,6 +457,7 @@ class Rig:
     def delay(self, i):
         self.tx = []
         self.net[i][1] = vt.now + self.cfg.get("delay_by", 1000) / 1000.0
+        self.late[id(self.net[i])] = self.net[i]      # a straggler from now on (TSM.tla DeliverableAt)
         self.log("Delay", i + 1)
 
     def shrink(self, i):
@@ -519,7 +522,7 @@ class Rig:
         self.applied = {}
         # order 'late-dup': the copy a duplication makes is a straggler -- it is delivered right after the first segment of
         # the answer has reached the requester (or when nothing else is left to do at that instant)
-        self.hold_dups, self.held, self.ca_seen = order == "late-dup", set(), False
+        self.hold_dups, self.held, self.ca_seen = False, set(), False
         self.submit()
         # wall-clock budget for the whole run (a transfer that sends the same segments for ever gets slower with every
         # step): generous: a step normally takes 1..3 ms, 600 segments go through in about a second
@@ -545,7 +548,7 @@ class Rig:
             if order == "fifo":
                 pick = steps[0]
             elif order == "late-dup":
-                held = [x for x in steps if x[0] == "frame" and id(self.net[x[1]]) in self.held]
+                held = [x for x in steps if x[0] == "frame" and id(self.net[x[1]]) in self.late]
                 pick = ((held if self.ca_seen else [x for x in steps if x not in held]) or steps)[0]
             elif order == "timers":
                 pick = ([s for s in steps if s[0] == "timer"] or steps)[0]
